@@ -4,7 +4,7 @@
 (*                                                                         *)
 (* The Sample objects are assembled one at a time (AddModel), then the     *)
 (* public call is one action (Compare) that resolves the unstable argsort  *)
-(* by a free choice among the sorting permutations; Refuse is the call on  *)
+(* by a free choice among the possible index sets; Refuse is the call on   *)
 (* inputs for which every weight in the cut vanishes (0/0 in the code).    *)
 (* Clause (e) of property C17 is stated as invariants of the state after   *)
 (* Compare, over exact rationals.                                          *)
@@ -30,22 +30,21 @@ WrongProbs(m, c) ==
   LET t == SumS([i \in 1..Len(m) |-> c[i] * m[i].nsim * m[i].w])
   IN [i \in 1..Len(m) |-> <<c[i] * m[i].nsim * m[i].w, t>>]
 
-Compare(p) == /\ pc = "build" /\ Len(ms) >= 2
-              /\ p \in SortPerms(Concat(ms))
-              /\ Total(ms, CountsOfPerm(ms, p)) > 0
-              /\ cnt' = CountsOfPerm(ms, p)
+Compare(s) == /\ pc = "build" /\ Len(ms) >= 2
+              /\ Total(ms, CountsOfSel(ms, s)) > 0
+              /\ cnt' = CountsOfSel(ms, s)
               /\ out' = IF Variant = "code" THEN Probs(ms, cnt') ELSE WrongProbs(ms, cnt')
               /\ pc' = "done"
               /\ UNCHANGED ms
 
-Refuse(p) == /\ pc = "build" /\ Len(ms) >= 2
-             /\ p \in SortPerms(Concat(ms))
-             /\ Total(ms, CountsOfPerm(ms, p)) = 0
+Refuse(s) == /\ pc = "build" /\ Len(ms) >= 2
+             /\ Total(ms, CountsOfSel(ms, s)) = 0
              /\ pc' = "undefined"
              /\ UNCHANGED <<ms, cnt, out>>
 
 Next == \/ \E m \in ModelSet : AddModel(m)
-        \/ \E p \in Perms(Len(Concat(ms))) : Compare(p) \/ Refuse(p)
+        \/ /\ Len(ms) >= 2
+           /\ \E s \in Selections(Concat(ms), NMin(ms)) : Compare(s) \/ Refuse(s)
 Spec == Init /\ [][Next]_vars
 
 \* ---- the property (C17, model comparison part) ------------------------------------------------
@@ -57,6 +56,10 @@ M == Len(ms)
 SharesOfSmallest == Done => cnt \in DefCounts(ms)
 \* and conversely every such share can be produced by the code (the definition is not narrower)
 AllSharesReachable == (pc = "build" /\ Len(ms) >= 2) => MechCounts(ms) = DefCounts(ms)
+\* the index sets of Compare are the prefixes of the sorting permutations (short concatenations)
+SelectionsArePrefixes ==
+  (pc = "build" /\ Len(ms) >= 2 /\ Len(Concat(ms)) <= 5) =>
+     Selections(Concat(ms), NMin(ms)) = PrefixSets(Concat(ms), NMin(ms))
 \* probabilities sum to one
 SumOne == Done => /\ \A i \in 1..M : out[i][2] > 0 /\ out[i][1] >= 0
                   /\ SumS([i \in 1..M |-> out[i][1]]) = out[1][2]
